@@ -25,8 +25,8 @@ META = {
     "level_note": "ANTLR lexer/parser trusted. Generator-driven obligations are selector-enumerated (E1s). STIX 2.0 grammar, patterns with more than 3 "
                   "atoms/observations, and START/STOP with string constants are outside the claim.",
     "technique": "CrossHair on the real visitor methods with stubbed children (symbolic NOT/operator/constant), solver-selected generator cases through "
-                 "the real parser with tree comparison, AST-to-SMT interpretation of the escaping kernel; counterexamples replayed natively",
-    "outside": ["ANTLR lexer/parser", "2.0 grammar", "patterns larger than 3 atoms / 3 observations"],
+                 "the real parser with tree comparison, AST-to-SMT interpretation of the escaping kernel, regex-to-z3 inclusion for the quoting rule; counterexamples replayed natively",
+    "outside": ["ANTLR lexer/parser", "2.0 grammar", "patterns larger than 4 atoms / 3 observations"],
     "assumptions": [ANTLR],
 }
 
